@@ -294,6 +294,191 @@ Section Grid.
       destruct (emit_inv _ _ _ He) as (_ & axi & rts & _ & Hrts' & Hn0). rewrite Hn0. cbn [n_rts].
       rewrite (mapM_length _ _ _ Hrts'), router_count. destruct Hab as (Ha1 & Hb1). destruct Htg as (Ht1 & Ht2). nia.
   Qed.
+
+  (* ---------------------------------------------------------------- destinations on ANY port of a router *)
+  (* the destination sits on port kd (0..3: a boundary port, the cell behind it lies outside the array; 4: the local
+     port) of the router at (tx, ty); its coordinate is the router's plus the step of that port *)
+  Section AnyPort.
+    Variables (kd ddx ddy : Z).
+    Hypothesis Hkd : 0 <= kd <= 4.
+    Hypothesis Hdd : to_coords kd = Ok (ddx, ddy).
+    Hypothesis HdestP : forall r, In r (c_rts c) -> cr_name r = nm tx ty ->
+      nth_error (cr_out r) (Z.to_nat kd) = Some (Some (nm tx ty, cn_name t)).
+    Let hx := tx + ddx.
+    Let hy := ty + ddy.
+    Let hP := HXY (hx - ox) (hy - oy) 0.
+
+    Lemma dd_cases : (kd = 0 /\ ddx = 0 /\ ddy = 1) \/ (kd = 1 /\ ddx = 1 /\ ddy = 0) \/ (kd = 2 /\ ddx = 0 /\ ddy = -1) \/
+                     (kd = 3 /\ ddx = -1 /\ ddy = 0) \/ (kd = 4 /\ ddx = 0 /\ ddy = 0).
+    Proof.
+      assert (Hc5 : kd = 0 \/ kd = 1 \/ kd = 2 \/ kd = 3 \/ kd = 4) by lia.
+      destruct Hc5 as [-> | [-> | [-> | [-> | ->]]]]; cbv in Hdd; inversion Hdd; subst ddx ddy; tauto.
+    Qed.
+
+    (* the cell behind a boundary port is outside the array: otherwise that port would hold a mesh link *)
+    Lemma target_outside : kd < 4 -> ~ in_grid hx hy.
+    Proof.
+      intros Hlt Hin. destruct (rt_at tx ty Htg) as (r & Hr & Hn & _).
+      pose proof (port_to r tx ty kd ddx ddy Hr Hn Htg ltac:(lia) Hdd Hin) as Hp.
+      rewrite (HdestP r Hr Hn) in Hp. inversion Hp as [Hq].
+      destruct (rt_at hx hy Hin) as (r3 & Hr3 & Hn3 & _). apply (ni_rt_disjoint d g c Hb Hc t r3 Ht Hr3). unfold hx, hy in Hn3. congruence.
+    Qed.
+
+    Lemma select_xyP r x i j : In r (c_rts c) -> cr_name r = nm i j -> in_grid i j -> emit_rt (c_desc c) ri r = Ok x ->
+      select n x hP = Ok (xy_select (i - ox) (j - oy) (hx - ox) (hy - oy) 0, hP).
+    Proof.
+      intros Hr Hn Hij Hx. pose proof (rt_coords r i j Hr Hn Hij) as Hid.
+      destruct (xy_coordinates_fit c xb yb ab ox oy (gri_xy _ c ri _ Hri Hxy)) as (_ & Hfit).
+      destruct (Hfit r Hr) as (x0 & y0 & p0 & Hid' & Fx & Fy). rewrite Hid in Hid'. inversion Hid'; subst x0 y0 p0.
+      unfold emit_rt in Hx. cbv zeta in Hx. inv_bind Hx. inversion Hx; subst x; clear Hx.
+      destruct (emit_inv _ _ _ He) as (_ & axi & rts & _ & _ & Hn0).
+      unfold select, hP. cbn [r_id]. rewrite Hid. unfold ri_offset. rewrite Hxy. cbn [id_sub].
+      rewrite Hn0. cbn [n_xy_bits]. rewrite Hxy. unfold trunc. rewrite !Z.mod_small by lia. reflexivity.
+    Qed.
+
+    Definition inp_okP (i j : Z) (inp : nat) : Prop :=
+      if hx <? i then inp <> 0%nat /\ inp <> 2%nat /\ inp <> 3%nat
+      else if i <? hx then inp <> 0%nat /\ inp <> 2%nat /\ inp <> 1%nat
+      else if j <? hy then inp <> 0%nat
+      else if hy <? j then inp <> 2%nat
+      else inp <> 4%nat.
+    (* a destination on an East / West port is reached along its own row only *)
+    Definition row_ok (j : Z) : Prop := ddx <> 0 -> j = ty.
+
+    Theorem xy_walkP : forall M i j inp r,
+      (Z.abs_nat (hx - i) + Z.abs_nat (hy - j))%nat = M -> in_grid i j -> In r (c_rts c) -> cr_name r = nm i j ->
+      inp_okP i j inp -> row_ok j ->
+      forall fuel rts sigs, (S M <= fuel)%nat ->
+        t_out (walk fuel n nt (URt (cr_name r) inp) hP rts sigs) = Delivered (cn_name t) hP.
+    Proof.
+      induction M as [M IH] using lt_wf_ind. intros i j inp r HM Hij Hr Hn Hok Hrow fuel rts sigs Hfuel.
+      destruct fuel as [|fuel]; [lia|].
+      destruct (emitted_rt c ri n He Hnd r Hr) as (x & Hx & _).
+      pose proof (select_xyP r x i j Hr Hn Hij Hx) as Hsel.
+      pose proof dd_cases as Hdc. pose proof Hij as (Hi & Hj). pose proof Htg as (Htx & Hty).
+      destruct (Z.eq_dec i tx) as [Ei|Ei]; [destruct (Z.eq_dec j ty) as [Ej|Ej]|].
+      - (* at the destination router: leave on port kd *)
+        subst i j.
+        assert (Hk : xy_select (tx - ox) (ty - oy) (hx - ox) (hy - oy) 0 = kd).
+        { unfold xy_select, hx, hy. destruct Hdc as [(Ek & Ex & Ey)|[(Ek & Ex & Ey)|[(Ek & Ex & Ey)|[(Ek & Ex & Ey)|(Ek & Ex & Ey)]]]];
+            rewrite Ek, Ex, Ey;
+            repeat match goal with |- context [?a =? ?b] => destruct (Z.eqb_spec a b) end;
+            repeat match goal with |- context [?a <? ?b] => destruct (Z.ltb_spec a b) end; cbn [andb]; lia. }
+        rewrite Hk in Hsel.
+        assert (Hsel' : select n x hP = Ok (Z.of_nat (Z.to_nat kd), hP)) by (rewrite Z2Nat.id by lia; exact Hsel).
+        assert (Hne : inp <> Z.to_nat kd /\ xy_masked (Z.of_nat inp) kd = false).
+        { unfold inp_okP, hx, hy in Hok. unfold xy_masked.
+          destruct Hdc as [(Ek & Ex & Ey)|[(Ek & Ex & Ey)|[(Ek & Ex & Ey)|[(Ek & Ex & Ey)|(Ek & Ex & Ey)]]]];
+            rewrite Ek; rewrite Ex, Ey in Hok;
+            repeat match type of Hok with context [?a <? ?b] => destruct (Z.ltb_spec a b); try lia end;
+            (split; [cbn; lia|]);
+            repeat match goal with |- context [?a =? ?b] => destruct (Z.eqb_spec a b) end; cbn [andb orb]; try reflexivity; lia. }
+        destruct Hne as (Hne & Hmask).
+        destruct (hw_step d g c ri n nt Hnt Hb Hc He Hwire r x inp hP (Z.to_nat kd) hP (cn_name t) fuel rts sigs Hr Hx Hsel'
+                    ltac:(rewrite Hn; apply (HdestP r Hr Hn)) Hne ltac:(rewrite Z2Nat.id by lia; cbn [is_xy hP andb]; exact Hmask))
+          as (u & Hw & [(y & Hy & -> & Hyn)|(r2 & i2 & Hr2 & -> & Hn2 & _)]).
+        + rewrite Hw. destruct fuel; cbn [walk t_out]; rewrite Hyn; reflexivity.
+        + exfalso. apply (ni_rt_disjoint d g c Hb Hc t r2 Ht Hr2). congruence.
+      - (* in the destination column, not yet in its row *)
+        assert (Hddx : ddx = 0) by (destruct (Z.eq_dec ddx 0); [assumption|exfalso; apply Ej; apply Hrow; assumption]).
+        set (k := xy_select (i - ox) (j - oy) (hx - ox) (hy - oy) 0) in *.
+        assert (Hdir : exists dy, (dy = 1 \/ dy = -1) /\ k = (if dy =? 1 then 0 else 2) /\ in_grid i (j + dy) /\
+                  (Z.abs_nat (hx - i) + Z.abs_nat (hy - (j + dy)) < M)%nat /\
+                  Z.of_nat inp <> k /\ xy_masked (Z.of_nat inp) k = false /\ inp_okP i (j + dy) (Z.to_nat (opp k))).
+        { unfold inp_okP, hx, hy in Hok, HM |- *. unfold k, xy_select, xy_masked, hx, hy. subst i. rewrite Hddx in Hok, HM |- *.
+          replace (tx + 0 - ox =? tx - ox) with true by lia.
+          replace (tx + 0 <? tx) with false in Hok |- * by lia. replace (tx <? tx + 0) with false in Hok |- * by lia.
+          destruct (Z.ltb_spec j (ty + ddy)) as [L3|L3].
+          - exists 1. replace (ty + ddy - oy =? j - oy) with false by lia. cbn [andb]. replace (ty + ddy - oy <? j - oy) with false by lia.
+            cbn [Z.eqb]. split; [lia|]. split; [reflexivity|]. split; [split; lia|]. split; [lia|]. split; [lia|].
+            split; [rewrite !andb_false_r; reflexivity|]. solve_ok.
+          - destruct (Z.ltb_spec (ty + ddy) j) as [L4|L4].
+            + exists (-1). replace (ty + ddy - oy =? j - oy) with false by lia. cbn [andb]. replace (ty + ddy - oy <? j - oy) with true by lia.
+              cbn [Z.eqb]. split; [lia|]. split; [reflexivity|]. split; [split; lia|]. split; [lia|]. split; [lia|].
+              split; [rewrite !andb_false_r; reflexivity|]. solve_ok.
+            + exfalso. assert (j = ty + ddy) by lia.
+              destruct (Z.eq_dec kd 4) as [E4|E4].
+              * destruct Hdc as [(? & _)|[(? & _)|[(? & _)|[(? & _)|(_ & _ & Ey)]]]]; lia.
+              * apply (target_outside ltac:(lia)). unfold hx, hy. rewrite Hddx. split; lia. }
+        destruct Hdir as (dy & Hdy & Hk & Hij' & HM' & Hne & Hmask & Hok').
+        assert (Htc : to_coords k = Ok (0, dy)) by (rewrite Hk; destruct Hdy as [-> | ->]; reflexivity).
+        assert (Hk4 : 0 <= k < 4) by (rewrite Hk; destruct Hdy as [-> | ->]; cbn; lia).
+        pose proof (port_to r i j k 0 dy Hr Hn Hij Hk4 Htc ltac:(replace (i + 0) with i by lia; exact Hij')) as Hport.
+        assert (Hsel' : select n x hP = Ok (Z.of_nat (Z.to_nat k), hP)) by (rewrite Z2Nat.id by lia; exact Hsel).
+        destruct (hw_step d g c ri n nt Hnt Hb Hc He Hwire r x inp hP (Z.to_nat k) hP (nm (i + 0) (j + dy)) fuel rts sigs Hr Hx Hsel'
+                    ltac:(rewrite Hn; exact Hport) ltac:(lia) ltac:(rewrite Z2Nat.id by lia; cbn [is_xy hP andb]; exact Hmask))
+          as (u & Hw & [(y & Hy & -> & Hyn)|(r2 & i2 & Hr2 & -> & Hn2 & Hin2)]).
+        + exfalso. destruct (rt_at (i + 0) (j + dy) ltac:(replace (i + 0) with i by lia; exact Hij')) as (r3 & Hr3 & Hn3 & _).
+          apply (ni_rt_disjoint d g c Hb Hc y r3 Hy Hr3). congruence.
+        + rewrite Hw. rewrite Hn in Hin2.
+          pose proof (arrives_on r2 i j k 0 dy i2 Hij ltac:(replace (i + 0) with i by lia; exact Hij') Hk4 Htc Hr2 Hn2 Hin2) as Hi2. subst i2.
+          replace (i + 0) with i in Hn2 by lia.
+          apply (IH _ HM' i (j + dy) (Z.to_nat (opp k)) r2 eq_refl Hij' Hr2 Hn2 Hok'); [|lia].
+          intros Hnz. contradiction.
+      - (* not yet in the destination column: move along the row *)
+        set (k := xy_select (i - ox) (j - oy) (hx - ox) (hy - oy) 0) in *.
+        assert (Hnotcol : hx <> i).
+        { intros Hq. unfold hx in Hq. destruct (Z.eq_dec ddx 0) as [Z0|NZ]; [lia|].
+          pose proof (Hrow NZ) as Hj'. subst j.
+          apply (target_outside ltac:(destruct Hdc as [(? & ? & _)|[(? & ? & _)|[(? & ? & _)|[(? & ? & _)|(? & ? & _)]]]]; lia)).
+          unfold hx, hy. destruct Hdc as [(? & ? & ?)|[(? & ? & ?)|[(? & ? & ?)|[(? & ? & ?)|(? & ? & ?)]]]]; try lia; split; lia. }
+        assert (Hdir : exists dx, (dx = 1 \/ dx = -1) /\ k = (if dx =? 1 then 1 else 3) /\ in_grid (i + dx) j /\
+                  (Z.abs_nat (hx - (i + dx)) + Z.abs_nat (hy - j) < M)%nat /\
+                  Z.of_nat inp <> k /\ xy_masked (Z.of_nat inp) k = false /\ inp_okP (i + dx) j (Z.to_nat (opp k))).
+        { unfold inp_okP in Hok |- *. unfold k, xy_select, xy_masked.
+          replace (hx - ox =? i - ox) with false by lia. cbn [andb].
+          assert (Hrange : (hx < i -> 0 <= i - 1) /\ (i < hx -> i + 1 < mm)).
+          { unfold hx in Hnotcol |- *. destruct Hdc as [(? & ? & ?)|[(? & ? & ?)|[(? & ? & ?)|[(? & ? & ?)|(? & ? & ?)]]]]; split; intros;
+              first [lia | (assert (j = ty) by (apply Hrow; lia); lia)]. }
+          destruct Hrange as (R1 & R2).
+          destruct (Z.ltb_spec hx i) as [L1|L1].
+          - exists (-1). replace (hx - ox <? i - ox) with true by lia. cbn [Z.eqb].
+            replace (i + -1) with (i - 1) by lia.
+            split; [lia|]. split; [reflexivity|]. split; [split; lia|]. split; [lia|]. split; [lia|].
+            split; [destruct Hok as (A & B & C); replace (Z.of_nat inp =? 2) with false by lia; replace (Z.of_nat inp =? 0) with false by lia; reflexivity|].
+            solve_ok.
+          - assert (L2 : i < hx) by lia. destruct (Z.ltb_spec i hx); [|lia].
+            exists 1. replace (hx - ox <? i - ox) with false by lia. cbn [Z.eqb].
+            split; [lia|]. split; [reflexivity|]. split; [split; lia|]. split; [lia|]. split; [lia|].
+            split; [destruct Hok as (A & B & C); replace (Z.of_nat inp =? 2) with false by lia; replace (Z.of_nat inp =? 0) with false by lia; reflexivity|].
+            solve_ok. }
+        destruct Hdir as (dx & Hdx & Hk & Hij' & HM' & Hne & Hmask & Hok').
+        assert (Htc : to_coords k = Ok (dx, 0)) by (rewrite Hk; destruct Hdx as [-> | ->]; reflexivity).
+        assert (Hk4 : 0 <= k < 4) by (rewrite Hk; destruct Hdx as [-> | ->]; cbn; lia).
+        pose proof (port_to r i j k dx 0 Hr Hn Hij Hk4 Htc ltac:(replace (j + 0) with j by lia; exact Hij')) as Hport.
+        assert (Hsel' : select n x hP = Ok (Z.of_nat (Z.to_nat k), hP)) by (rewrite Z2Nat.id by lia; exact Hsel).
+        destruct (hw_step d g c ri n nt Hnt Hb Hc He Hwire r x inp hP (Z.to_nat k) hP (nm (i + dx) (j + 0)) fuel rts sigs Hr Hx Hsel'
+                    ltac:(rewrite Hn; exact Hport) ltac:(lia) ltac:(rewrite Z2Nat.id by lia; cbn [is_xy hP andb]; exact Hmask))
+          as (u & Hw & [(y & Hy & -> & Hyn)|(r2 & i2 & Hr2 & -> & Hn2 & Hin2)]).
+        + exfalso. destruct (rt_at (i + dx) (j + 0) ltac:(replace (j + 0) with j by lia; exact Hij')) as (r3 & Hr3 & Hn3 & _).
+          apply (ni_rt_disjoint d g c Hb Hc y r3 Hy Hr3). congruence.
+        + rewrite Hw. rewrite Hn in Hin2.
+          pose proof (arrives_on r2 i j k dx 0 i2 Hij ltac:(replace (j + 0) with j by lia; exact Hij') Hk4 Htc Hr2 Hn2 Hin2) as Hi2. subst i2.
+          replace (j + 0) with j in Hn2 by lia.
+          apply (IH _ HM' (i + dx) j (Z.to_nat (opp k)) r2 eq_refl Hij' Hr2 Hn2 Hok' Hrow). lia.
+    Qed.
+
+    (* C04 on the hardware model, any destination port: a flit injected at interface s0, which enters the array at
+       router (a, b) on a port compatible with the dimension-ordered path (and, for a destination on an East / West
+       port, in the destination's row), with the coordinate of t in its header, is delivered to t *)
+    Theorem xy_sendP s0 a b :
+      In s0 (c_nis c) -> snd (attach nt s0) = nm a b -> in_grid a b -> row_ok b ->
+      (forall r i, In r (c_rts c) -> cr_name r = nm a b ->
+         nth_error (cr_in r) i = Some (Some (cn_name s0, nm a b)) -> inp_okP a b i) ->
+      t_out (send n nt (emit_ni d (ri_offset ri) s0) hP) = Delivered (cn_name t) hP.
+    Proof.
+      intros Hs0 Hatt Hab Hrow Hinp.
+      destruct (inject_reader d g c ri n nt Hnt Hb Hc He Hwire s0 (nm a b) Hs0 Hatt) as (Hout & u & Hrdr & Hcases).
+      unfold send. rewrite Hout. unfold Hw.follow. rewrite Hrdr.
+      destruct Hcases as [(y & Hy & -> & Hyn)|(r & i & Hr & -> & Hn & Hin)].
+      - exfalso. destruct (rt_at a b Hab) as (r3 & Hr3 & Hn3 & _). apply (ni_rt_disjoint d g c Hb Hc y r3 Hy Hr3). congruence.
+      - apply (xy_walkP (Z.abs_nat (hx - a) + Z.abs_nat (hy - b)) a b i r eq_refl Hab Hr Hn (Hinp r i Hr Hn Hin) Hrow).
+        destruct (emit_inv _ _ _ He) as (_ & axi & rts & _ & Hrts' & Hn0). rewrite Hn0. cbn [n_rts].
+        rewrite (mapM_length _ _ _ Hrts'), router_count. destruct Hab as (Ha1 & Hb1). destruct Htg as (Ht1 & Ht2).
+        pose proof dd_cases as Hdc. unfold hx, hy.
+        destruct Hdc as [(? & ? & ?)|[(? & ? & ?)|[(? & ? & ?)|[(? & ? & ?)|(? & ? & ?)]]]]; nia.
+    Qed.
+  End AnyPort.
 End Grid.
 
 (* the header an interface builds from the identity of t is the coordinate header used above *)
@@ -385,3 +570,75 @@ Section Local.
     rewrite Hin4 in Hin. inversion Hin. congruence.
   Qed.
 End Local.
+
+(* ------------------------------------------------------------------ interfaces on any ports of the array *)
+Section Ports.
+  Variables (d : desc) (g : graph) (c : compiled) (rd : rt_desc) (mm nn : Z).
+  Hypothesis Hb : build d = Ok g.
+  Hypothesis Hc : compile d g = Ok c.
+  Hypothesis Halgo : d_algo d = XY.
+  Hypothesis Hrts : d_rts d = [rd].
+  Hypothesis Harr : rt_array rd = Some [mm; nn].
+  Hypothesis Htree : rt_tree rd = None.
+  Hypothesis Hauto : rt_auto rd = true.
+  Variables (sp : oracle) (ri : rinfo) (n : netlist) (nt : net).
+  Hypothesis Hnt : net_ok d nt.
+  Hypothesis Hri : gen_routing_info sp c = Ok ri.
+  Hypothesis He : emit c ri = Ok n.
+  Hypothesis Hwire : forall l, In l (n_links n) -> fst l = net_type nt -> signal_ok n l.
+  Variables (xb yb ab ox oy : Z).
+  Hypothesis Hxy : ri_xy ri = Some (xb, (yb, (ab, (ox, oy)))).
+  Let nm (i j : Z) : string := full_name (rt_name rd) [i; j].
+
+  (* interface x sits on port k (0..3 a boundary port, 4 the local port) of the router at (i, j): the two link edges
+     between them name direction k at the router end *)
+  Definition on_port (x : cni) (i j k : Z) : Prop :=
+    in_grid mm nn i j /\ 0 <= k <= 4 /\
+    (exists e, In e (g_edges g) /\ is_link e = true /\ e_src e = nm i j /\ e_dst e = cn_name x /\ e_src_dir e = Some k) /\
+    (exists e, In e (g_edges g) /\ is_link e = true /\ e_src e = cn_name x /\ e_dst e = nm i j /\ e_dst_dir e = Some k) /\
+    attach nt x = (cn_name x, nm i j).
+
+  Lemma port_out x i j k r : on_port x i j k -> In r (c_rts c) -> cr_name r = nm i j ->
+    nth_error (cr_out r) (Z.to_nat k) = Some (Some (nm i j, cn_name x)).
+  Proof.
+    intros (_ & Hk & (e & Hin & Hl & Hs & Hd & Hdir) & _) Hr Hn.
+    destruct (crt_origin d g c Hc r Hr) as (rt & rid & Hq & Hnr).
+    assert (Hef : In e (filter is_link (edges_from g (n_name rt)))).
+    { apply filter_In. split; [|exact Hl]. unfold edges_from. apply filter_In. split.
+      - apply (edges_view_In g e (proj2 (build_ginv d g Hb))). exact Hin.
+      - apply String.eqb_eq. congruence. }
+    pose proof (dir_out_slot d g rt rid r Hq e k Hef Hdir ltac:(lia)) as H. unfold epair in H. rewrite Hs, Hd in H. exact H.
+  Qed.
+
+  Lemma port_in x i j k r i0 : on_port x i j k -> In r (c_rts c) -> cr_name r = nm i j ->
+    nth_error (cr_in r) i0 = Some (Some (cn_name x, nm i j)) -> i0 = Z.to_nat k.
+  Proof.
+    intros (_ & Hk & _ & (e & Hin & Hl & Hs & Hd & Hdir) & _) Hr Hn Hi0.
+    destruct (crt_origin d g c Hc r Hr) as (rt & rid & Hq & Hnr).
+    assert (Hef : In e (filter is_link (edges_to g (n_name rt)))).
+    { apply filter_In. split; [|exact Hl]. unfold edges_to. apply filter_In. split.
+      - apply (edges_view_In g e (proj2 (build_ginv d g Hb))). exact Hin.
+      - apply String.eqb_eq. congruence. }
+    pose proof (dir_in_slot d g rt rid r Hq e k Hef Hdir ltac:(lia)) as H4. unfold epair in H4. rewrite Hs, Hd in H4.
+    assert (Hl' : is_link_of g (cn_name x, cr_name r)) by (exists e; cbn; repeat split; auto; congruence).
+    destruct (in_slot_of d g c Hb Hc r (cn_name x) Hr Hl') as (i1 & _ & Huniq).
+    rewrite <- Hn in Hi0, H4. pose proof (Huniq _ Hi0) as E1. pose proof (Huniq _ H4) as E2. lia.
+  Qed.
+
+  (* C04: an interface on ANY port reaches an interface on ANY port whenever dimension-ordered routing can serve the
+     pair: the entry port is compatible with the path (no loop-back, no Y-to-X turn: `inp_okP`) and a destination on
+     an East / West port lies in the row the flit enters (`row_ok`) *)
+  Theorem xy_send_ports s0 t a b ks tx ty kd ddx ddy :
+    In s0 (c_nis c) -> In t (c_nis c) ->
+    on_port s0 a b ks -> on_port t tx ty kd -> to_coords kd = Ok (ddx, ddy) ->
+    row_ok ty ddx b -> inp_okP tx ty ddx ddy a b (Z.to_nat ks) ->
+    let h := HXY (tx + ddx - ox) (ty + ddy - oy) 0 in
+    t_out (send n nt (emit_ni d (ri_offset ri) s0) h) = Delivered (cn_name t) h.
+  Proof.
+    intros Hs0 Ht Hls Hlt Hdd Hrow Hinp. cbv zeta.
+    pose proof Hls as (Hab & _ & _ & _ & Hatt). pose proof Hlt as (Htg & Hkd & _).
+    apply (xy_sendP d g c rd mm nn Hb Hc Halgo Hrts Harr Htree Hauto sp ri n nt Hnt Hri He Hwire xb yb ab ox oy Hxy t tx ty Ht Htg
+             kd ddx ddy Hkd Hdd (fun r Hr Hn => port_out t tx ty kd r Hlt Hr Hn) s0 a b Hs0 ltac:(rewrite Hatt; reflexivity) Hab Hrow).
+    intros r i Hr Hn Hin. rewrite (port_in s0 a b ks r i Hls Hr Hn Hin). exact Hinp.
+  Qed.
+End Ports.
